@@ -5844,8 +5844,9 @@ class Query(object):
                 for func, func_extractors in translator.func_extractors_map.items():
                     func_id = id(func.__code__)
                     func_filter_num = translator.filter_num, 'func', func_id
+                    func_cells = dict(zip(func.__code__.co_freevars, func.__closure__)) if func.__closure__ else None
                     func_vars, func_vartypes = extract_vars(
-                        func_id, func_filter_num, func_extractors, func.__globals__, {}, func.__closure__)  # todo closures
+                        func_id, func_filter_num, func_extractors, func.__globals__, {}, func_cells)
                     database.provider.normalize_vars(func_vars, func_vartypes)
                     new_vars.update(func_vars)
                     all_func_vartypes.update(func_vartypes)
